@@ -364,4 +364,98 @@ def run(ctx, prog):
         errs6 = flow.err_blocks(b)
         okd = bool(de) and all((flow.failure_edges(b, c) or []) and not flow.ok_return_reachable(b, [e[1] for e in flow.failure_edges(b, c)]) for c in de)
         ctx.inst('C13.R6', b.short, 'a decode error of MANIFEST is returned as an error', okd, 'decode calls: %d' % len(de))
+    # ------------------------------------------------------------------ R7 a snapshot the MANIFEST names is consulted
+    ctx.rule('C13.R7', 'the log in front of the snapshot recorded in the MANIFEST may have been compacted away, so that snapshot is the only copy of the documents it covers: '
+                       'in recovery every path from entry to the log replay or to a successful return passes the snapshot loader (Snapshot::load_with_validation / '
+                       'Snapshot::load), except across the None edge of a test of the MANIFEST field latest_snapshot ITSELF (no snapshot was ever recorded) or a BestEffort '
+                       'edge. Skipping the load on any other condition (file not on disk, size, age — a filtered or re-derived Option) starts up with the snapshot\'s '
+                       'documents missing and reports success; what happens when the load FAILS is C13.R1')
+    of7 = flow.Origin(rec)
+    loads7 = rec.calls_to('Snapshot::load_with_validation', 'Snapshot::load')
+    NONE7 = re.compile(r'^variant\(.*→Manifest\.latest_snapshot\) (?:= None|∉ \{Some\})$|^!bool\[Option::is_some\(.*→Manifest\.latest_snapshot\)\]$|^bool\[Option::is_none\(.*→Manifest\.latest_snapshot\)\]$')
+    none7 = []
+    for i, blk in enumerate(rec.blocks):
+        if blk['t']['k'] == 'switch' and i in rec.live_blocks():
+            for tg, p in flow.switch_edge_predicates(rec, i, of7):
+                if NONE7.match(p):
+                    none7.append((i, tg))
+    if not loads7 or not none7:
+        ctx.missing('C13.R7', 'recovery: snapshot loader call (%d) / test of manifest.latest_snapshot (%d None edges)' % (len(loads7), len(none7)))
+    else:
+        errs7 = flow.err_blocks(rec)
+        be7 = [(i, tg) for i, tg, p in best]
+        replay7 = [x.bb for x in rec.calls_to('WalReader::open', 'WalReader::read_all_strict', 'WalReader::read_all')]
+        cut7 = set(x.bb for x in loads7) | set(errs7)
+        r7 = rec.reach([0], avoid_blocks=cut7, avoid_edges=none7 + be7)
+        leaks7 = [x for x in replay7 + list(rec.return_blocks()) if x in r7]
+        det7 = 'every path to the replay / a successful return loads the recorded snapshot, or found manifest.latest_snapshot = None, or is BestEffort'
+        if leaks7:
+            path7 = rt.find_path(rec, [0], [leaks7[0]], avoid_blocks=cut7, avoid_edges=none7 + be7) or []
+            crossed = []
+            for a_, b_ in zip(path7, path7[1:]):
+                if rec.blocks[a_]['t']['k'] == 'switch':
+                    for tg, p in flow.switch_edge_predicates(rec, a_, of7):
+                        if tg == b_ and ('latest_snapshot' in p or 'Snapshot' in p):
+                            crossed.append('%s at %s' % (re.sub(r'Manifest::load\(.*?\)@Continue→Continue\.0', 'manifest', p)[:160], rec.loc_of(a_)))
+            det7 = '%s is reached without loading the snapshot the MANIFEST names; the path decides on: %s' % (
+                'the log replay at %s' % rec.loc_of(leaks7[0]) if leaks7[0] in replay7 else 'a successful return', crossed[-3:] or rt.path_witness(rec, path7)[-4:])
+        ctx.inst('C13.R7', rec.short, 'a snapshot named by the MANIFEST is loaded before the replay on every Strict path', bool(replay7) and not leaks7, det7)
+
+    # ------------------------------------------------------------------ R8 the MANIFEST recovery decides on is the one on disk
+    ctx.rule('C13.R8', 'a removed MANIFEST refuses start-up: the Manifest whose wal_segments recovery replays and whose latest_snapshot it loads is the Ok value of '
+                       'Manifest::load — read from the file and decoded, both failures returned (Manifest::load: no Ok return from the failure edge of the file read; '
+                       'decoder: C13.R6) — on every path, never a freshly constructed one (Manifest::new / load_or_create): with a created MANIFEST recovery replays '
+                       'nothing, reports success with an empty collection and then overwrites the record of the old segments')
+    bases8 = {}
+
+    def _walk8(o):
+        if isinstance(o, dict):
+            if 'l' in o and any(isinstance(x, str) and re.search(r'Manifest\.(wal_segments|latest_snapshot)$', x) for x in (o.get('p') or [])):
+                pr = o['p']
+                k_ = next(n for n, x in enumerate(pr) if isinstance(x, str) and re.search(r'Manifest\.(wal_segments|latest_snapshot)$', x))
+                base = of7.of_place({'l': o['l'], 'p': pr[:k_]})
+                for a in flow.top_alternatives(base):
+                    if a[0] == 'set':
+                        continue
+                    bases8.setdefault(flow.render(a), pr[k_].rsplit('.', 1)[-1])
+                return
+            for v in o.values():
+                _walk8(v)
+        elif isinstance(o, list):
+            for v in o:
+                _walk8(v)
+    for i, blk in enumerate(rec.blocks):
+        if i in rec.live_blocks():
+            _walk8([s_.get('rv') for s_ in blk['s']])
+            _walk8({k: v for k, v in blk['t'].items() if k != 'dest'})
+    if not bases8:
+        ctx.missing('C13.R8', 'recovery: reads of Manifest.wal_segments / Manifest.latest_snapshot')
+    else:
+        bad8 = sorted(b for b in bases8 if not re.match(r'^Manifest::load\((?:[^()]|\((?:[^()]|\([^()]*\))*\))*\)@(?:Continue→Continue|Ok→Ok)\.0$', b))
+        ml8 = rec.calls_to('Manifest::load')
+        use8 = util.result_use(rec, ml8[0]) if ml8 else 'missing'
+        ctx.inst('C13.R8', rec.short, 'the replayed segment list and the loaded snapshot name come from Manifest::load', not bad8 and use8 == 'propagated',
+                 ('manifest.%s is read from %s' % (bases8[bad8[0]], bad8[0][:200])) if bad8 else 'origin of every read: Manifest::load(<data_dir>/MANIFEST), result %s' % use8)
+    for b in mf:
+        rd = [c for c in b.calls if c.callee and re.search(r'fs::read_to_string$|fs::read$|File::open$|OpenOptions::open$', c.callee)]
+        okr = bool(rd) and all(flow.failure_edges(b, c) and not flow.ok_return_reachable(b, [e[1] for e in flow.failure_edges(b, c)]) for c in rd)
+        # every value the function returns is an error (residual of `?`, Err aggregate), the decoder's own Result, or Ok(<the decoder's Ok value>)
+        DEC8 = r'(?:serde_json::)?(?:de::)?from_(?:slice|str|reader)\('
+        alts8 = flow.top_alternatives(flow.Origin(b).of_local(0))
+        oks8, other8 = [], []
+        for a in alts8:
+            r_ = flow.render(a)
+            if a[0] == 'call' and (a[1].endswith('::from_residual') or re.match('^' + DEC8, r_)):
+                continue
+            if a[0] == 'agg' and a[1].endswith('Result::Err'):
+                continue
+            if a[0] == 'agg' and a[1].endswith('Result::Ok') and len(a[2]) == 1 and re.match('^' + DEC8 + r'.*\)@(?:Continue→Continue|Ok→Ok)\.0$', flow.render(a[2][0])):
+                oks8.append(r_)
+                continue
+            other8.append(r_)
+        okv = bool(oks8) and not other8
+        ctx.inst('C13.R8', b.short, 'an unreadable or absent MANIFEST file is an error, the Ok value is the decoded file', okr and okv,
+                 'file reads: %d, failure returned: %s; %s' % (len(rd), okr, ('returns something that was not decoded from the file: %s' % other8[0][:160]) if other8 else 'Ok value: %s' % (oks8[0][:120] if oks8 else 'none')))
+    if not mf:
+        ctx.missing('C13.R8', 'function persistence::Manifest::load')
     ctx.stat('functions_analysed', len(set(i['key'].split(' | ')[1] for i in ctx.instances)))
